@@ -429,7 +429,7 @@ theorem renderHeader_total (k : ColorCtx) {d : Doc} {p : Prep} {removed : List N
           rw [hcw] at he
           simp only [Option.map_some, Option.some.injEq] at he
           rw [← he]
-          exact Proofs.Encode.allPos_headerDisplayed (hwa w0 hcw).2 _ _
+          exact Proofs.Encode.allPos_headerDisplayed (hwa w0 hcw) _ _
       · exact Proofs.Widths.allPos_replicate _ _ (by decide)
     have hvne : Proofs.Encode.headerV
         (h.colRelWidth.map fun w => Model.Widths.headerDisplayed w p.keep text.length) text.length ≠ [] := by
